@@ -350,7 +350,7 @@ pub fn run_reader_static<const N: usize>(s: &[u8], src: Src, extra: usize) -> Ve
 macro_rules! with_arraybuf {
     ($n:expr, $mac:ident) => {
         $crate::with_arraybuf!(@m $n, $mac, 0 1 2 3 4 5 6 7 8 9 10 11 12 13 14 15 16 17 18 19 20 21 22 23 24 25 26 27 28 29 30 31 32
-            33 34 35 36 37 38 39 40 41 42 43 44 45 46 47 48 64 96 128 255 256 257 300 1024 1100 8191 8192 8193 70000)
+            33 34 35 36 37 38 39 40 41 42 43 44 45 46 47 48 64 96 128 255 256 257 300 1024 1100 8191 8192 8193 65535 65536 65537 65541 66000 70000)
     };
     (@m $n:expr, $mac:ident, $($k:literal)*) => {
         match $n { $( $k => $mac!($k), )* other => panic!("ArrayBuf<{}> is not instantiated in the harness", other) }
@@ -358,7 +358,7 @@ macro_rules! with_arraybuf {
 }
 pub const ARRAYBUF_SIZES: &[usize] = &[
     0, 1, 2, 3, 4, 5, 6, 7, 8, 9, 10, 11, 12, 13, 14, 15, 16, 17, 18, 19, 20, 21, 22, 23, 24, 25, 26, 27, 28, 29, 30, 31, 32, 33, 34, 35, 36, 37, 38, 39, 40,
-    41, 42, 43, 44, 45, 46, 47, 48, 64, 96, 128, 255, 256, 257, 300, 1024, 1100, 8191, 8192, 8193, 70000,
+    41, 42, 43, 44, 45, 46, 47, 48, 64, 96, 128, 255, 256, 257, 300, 1024, 1100, 8191, 8192, 8193, 65535, 65536, 65537, 65541, 66000, 70000,
 ];
 /// smallest instantiated capacity >= n
 pub fn cap_at_least(n: usize) -> usize {
